@@ -208,6 +208,28 @@ func c04R2(h H) {
 			if !ok {
 				return
 			}
+			// a map created in this function (every way the value can arise is a make, or nil) is private by construction
+			if leaves, direct := phiLeaves(hv); len(leaves)+len(direct) > 0 {
+				fresh, anyMake := true, false
+				for _, lv := range append(direct, leafValues(leaves)...) {
+					switch t := lv.(type) {
+					case *ssa.MakeMap:
+						anyMake = true
+					case *ssa.Const:
+						if t.Value != nil {
+							fresh = false
+						}
+					default:
+						fresh = false
+					}
+				}
+				if fresh && anyMake {
+					n++
+					r.Hold("R2", sprintf("proxy.createUpstreamRequest/header-mutation:%s", mutationName(in)), in.Pos(),
+						"the modified header map was created in this function (private copy)", describe(hv))
+					return
+				}
+			}
 			// only mutations of the outgoing request's header (outreq = result of WithContext)
 			if !derives(hv, func(v ssa.Value) bool { return isResultOf(v, 0, "(*net/http.Request).WithContext") }, flowOpts{}) {
 				return
